@@ -145,7 +145,8 @@ def get_case(desc):
         return _single_cases()[desc["i"]]
     if desc["kind"] == "literal":
         return desc["case"]
-    return mapgen.case_from_seed(desc["seed"], desc["i"], allow_autogen=desc["i"] % 2 == 1)
+    return mapgen.case_from_seed(desc["seed"], desc["i"], allow_autogen=desc["i"] % 2 == 1, allow_renames=desc["i"] % 3 == 0,
+                                 allow_bound=desc["i"] % 5 == 0)
 
 
 def storage_arg(case, st, i):
@@ -307,7 +308,7 @@ def finalize(agg, tier, seed):
     if len(agg.keys) < need:
         floors.append(f"only {len(agg.keys)} distinct non-trivial cases (< {need})")
     for c in ["internal_before_external", "internal_after_external", "generator", "tuple_out", "fullcolon",
-              "partial_colon", "zip", "outer", "nomapspec", "root_list", "permuted_out_axes", "colon_on_tuple_output", "autogen_mapspec"]:
+              "partial_colon", "zip", "outer", "nomapspec", "root_list", "permuted_out_axes", "colon_on_tuple_output", "autogen_mapspec", "renamed_params"]:
         if agg.classes.get(c, 0) < 10:
             floors.append(f"structural class {c} hit only {agg.classes.get(c, 0)} times (< 10)")
     if agg.counters.get("first_runs_cut_short:unpicklable", 0) < 20 or agg.counters.get("first_runs_cut_short:raise", 0) < 50:
